@@ -54,6 +54,24 @@ P = {
              "document, and every explored edge is replayed into the real composer with the whole projected document "
              "compared; random patch sequences over a larger universe are validated by TLC as oracle.",
         ref="DESIGN.md 3 C10"),
+    "C11": dict(
+        level="model_checking", engine="jsonpatchguard",
+        technique="TLA+ model of RFC 6902 writes against a protected region (JsonPatchGuard.tla) checked by TLC incl. a "
+                  "negative configuration; every enumerated list replayed into patchvalidator.Validate + ApplyPatches",
+        text="TLC proves within the pointer / kind universe that inspecting path and from suffices and that inspecting "
+             "path alone does not; every enumerated list goes through the real validator and, when accepted, the real "
+             "composer, with the publicKey / service members compared before and after (effect-based oracle on the "
+             "real code; the model's classification is cross-checked against the real effect).",
+        ref="DESIGN.md 3 C11"),
+    "C13": dict(
+        level="model_checking", engine="patchrules",
+        technique="TLA+ decision table Valid(feature record) (PatchRules.tla); TLC enumerates labelled mutations of valid "
+                  "bases, one implementation test per state; TLC trace validation of random feature records",
+        text="The documented constraints are a TLA+ predicate over feature records; TLC enumerates bases, every "
+             "single (thorough: pair of) field mutation and the key type x purpose matrix, checks that each rule is "
+             "independently necessary, and each state becomes one test of the real validator whose expected verdict is "
+             "the specification's; random records with any number of deviations are then validated by TLC.",
+        ref="DESIGN.md 3 C13"),
     "C12": dict(
         level="model_checking", engine="applier+composer",
         technique="TLC-enumerated edges of Applier.tla (and Composer.tla) replayed with deep input digests taken before and "
